@@ -44,6 +44,9 @@ U = 2.0 ** -53
 # generation
 
 FIXED_NAMES = ["BRAND", "AND", "and", "ANDROID", "sAND", "x AND", "AND y", "a-b", "my-feat", "ad size", "STAND-IN", "B AND"]
+# names that DataFrame.to_csv(sep='\t') has to quote (a double quote, a tab, a line break inside the name): pairwise_ranks.tsv is
+# written with csv quoting exactly as the ranking task writes it, the summary must read them back unchanged
+QUOTED_NAMES = ['screen 15"', '"brand"', 'a\tb', 'two\nlines', 'x"y"z', '"', 'q"-(1; 2)x']
 DASH_LABELS = ["my-label", "y-1"]
 
 
@@ -73,8 +76,11 @@ def gen_case(rng, big=False, history=False):
     base = []
     seen = {label}
     while len(base) < nbase:
-        if rng.random() < 0.2:           # names with the substring AND / and, a dash, a blank ("AND" alone, BRAND, a-b, ...)
+        u = rng.random()
+        if u < 0.2:                      # names with the substring AND / and, a dash, a blank ("AND" alone, BRAND, a-b, ...)
             nme = rng.choice(FIXED_NAMES)
+        elif u < 0.28:
+            nme = rng.choice(QUOTED_NAMES)
         else:
             nme = rng.choice(STEMS) + str(rng.randint(0, 30)) + rng.choice(TRS)
         if nme not in seen:
@@ -463,6 +469,7 @@ def check(run, replay):
     hist = {"features": {}, "order": {}, "heuristic_MI": 0, "heuristic_other": 0, "annotated": 0, "degenerate_minmax": 0,
             "near_degenerate_minmax": 0, "names_with_AND_substring_not_joiner": 0, "names_with_dash_before_annotation": 0,
             "no_label_rows": 0, "with_aggregated_rows": 0, "rows": {}, "status": {}, "calls_per_case": {}, "tldr": {},
+            "names_needing_csv_quoting": 0,
             "more_than_20_listed_features": 0, "more_than_20_listed_and_truthy_tldr": 0, "history_calls_judged": 0}
     worst = None
     for c, e in zip(cases, ev):
@@ -488,6 +495,8 @@ def check(run, replay):
         if e["status"] == "ok-near-degenerate":
             hist["near_degenerate_minmax"] += 1
         allnames = {x for a, b, _ in c["rows"] for x in (a, b)}
+        if any(ch in x for x in allnames for ch in '"\t\n'):
+            hist["names_needing_csv_quoting"] += 1
         if any("AND" in x.replace(" AND ", "") for x in allnames):
             hist["names_with_AND_substring_not_joiner"] += 1
         if any("-" in (x[:x.rfind("-(")] if "-(" in x else x) for x in allnames):
